@@ -4,6 +4,7 @@ package props
 
 import (
 	"fmt"
+	"math"
 	"math/rand/v2"
 
 	"github.com/creachadair/mds/slice"
@@ -23,11 +24,11 @@ func init() {
 				Flavours: []string{"plain", "cover"},
 				Blocks:   16,
 				Procs:    16,
-				Rule: "LIS/LNDS: every sequence over alphabet 4 x length <= 8, alphabet 3 x length <= 11 and alphabet 2 x length <= 13 (exhaustive), each under three comparators (natural -1/0/+1, reversed, and a 'wide' comparator returning the difference a-b), plus random sequences up to 1500 (5000 thorough) with heavy duplication; " +
+				Rule: "LIS/LNDS: every sequence over alphabet 4 x length <= 8, alphabet 3 x length <= 11 and alphabet 2 x length <= 13 (exhaustive), each under four comparators (natural -1/0/+1, reversed, a 'wide' comparator returning the difference a-b, and one returning MinInt/MaxInt); a structured family of two interleaved ascending runs with run lengths 1..70 and 2^k-1..2^k+1 up to 1024, plus random sequences up to 1500 (5000 thorough) with heavy duplication; " +
 					"LCS/LCSFunc: every pair over alphabet 2 x length <= 7 and alphabet 3 x length <= 5 (exhaustive) plus random pairs up to 300 of very different lengths. " +
 					"Checks: returned elements identify strictly increasing positions of the input (for LCS: of one input, and their values form a subsequence of the other), strict / non-strict order under the comparator used, length == quadratic reference, inputs unmodified. " +
 					"distinct = the input (enumerated without repetition; random by hash); non-trivial = the input has a repeated value (ties)",
-				Required:     []string{"lis_inputs", "lnds_inputs", "lcs_pairs", "wide_comparator_inputs", "reversed_comparator_inputs", "lcs_unequal_length_pairs"},
+				Required:     []string{"lis_inputs", "lnds_inputs", "lcs_pairs", "wide_comparator_inputs", "reversed_comparator_inputs", "lcs_unequal_length_pairs", "structured_two_run_inputs"},
 				Exhaustive:   true,
 				Assumptions:  []string{"quadratic DP references for LIS/LNDS/LCS lengths"},
 				CoverPkgs:    []string{"github.com/creachadair/mds/slice"},
@@ -87,6 +88,15 @@ var c12cmps = []struct {
 		return 0
 	}},
 	{"wide(a-b)", func(a, b int) int { return a - b }},
+	{"extreme(MinInt/MaxInt)", func(a, b int) int {
+		switch {
+		case a < b:
+			return math.MinInt
+		case a > b:
+			return math.MaxInt
+		}
+		return 0
+	}},
 }
 
 func c12seq(c *fw.Ctx, vs []int, ci int) {
@@ -369,9 +379,9 @@ func runC12(c *fw.Ctx) {
 					c.Sample(map[string]any{"input": vs, "LIS": slice.LIS(append([]int(nil), vs...)), "LNDS": slice.LNDS(append([]int(nil), vs...))})
 				}
 			}
-			c.Evals(3*cnt - 1)
-			c.Add("lis_inputs", 3*cnt)
-			c.Add("lnds_inputs", 3*cnt)
+			c.Evals(int64(len(c12cmps))*cnt - 1)
+			c.Add("lis_inputs", int64(len(c12cmps))*cnt)
+			c.Add("lnds_inputs", int64(len(c12cmps))*cnt)
 			c.Add("wide_comparator_inputs", cnt)
 			c.Add("reversed_comparator_inputs", cnt)
 			c.SeenEnum(nt)
@@ -380,6 +390,54 @@ func runC12(c *fw.Ctx) {
 			}
 		}
 		idx += nb
+	}
+	// structured family: two interleaved ascending runs, the second starting
+	// below (or inside) the first, for run lengths around every power of two —
+	// the tails array of the algorithm then has a length of exactly 2^k when a
+	// new minimum or a tie arrives.
+	{
+		var Ls []int
+		for l := 1; l <= c.Pick(70, 300); l++ {
+			Ls = append(Ls, l)
+		}
+		for k := 7; k <= c.Pick(10, 12); k++ {
+			Ls = append(Ls, 1<<k-1, 1<<k, 1<<k+1)
+		}
+		for li, L := range Ls {
+			if li%c.NBlocks != c.Block {
+				continue
+			}
+			if !c.Begin(idx + li) {
+				continue
+			}
+			var cnt int64
+			for _, d := range []int{1, 5, L / 2, L} {
+				for _, M := range []int{L + 3, L/2 + 1, 2} {
+					for _, dup := range []bool{false, true} {
+						var vs []int
+						for i := 0; i < L; i++ {
+							vs = append(vs, 10+i)
+							if dup && i%3 == 0 {
+								vs = append(vs, 10+i)
+							}
+						}
+						for i := 0; i < M; i++ {
+							vs = append(vs, 10-d+i)
+						}
+						for ci := range c12cmps {
+							c12seq(c, vs, ci)
+						}
+						cnt++
+					}
+				}
+			}
+			c.Evals(int64(len(c12cmps))*cnt - 1)
+			c.Add("structured_two_run_inputs", cnt)
+			c.Add("lis_inputs", int64(len(c12cmps))*cnt)
+			c.Add("lnds_inputs", int64(len(c12cmps))*cnt)
+			c.SeenEnum(cnt)
+		}
+		idx += len(Ls)
 	}
 	// LCS exhaustive pairs
 	lspaces := []space{{2, 7}, {3, 5}}
@@ -424,7 +482,7 @@ func runC12(c *fw.Ctx) {
 		n := r.IntN(c.Pick(1500, 5000))
 		alpha := []int{2, 3, 10, 100, 1 << 30}[r.IntN(5)]
 		vs := c12random(r, n, alpha)
-		ci := r.IntN(3)
+		ci := r.IntN(len(c12cmps))
 		c12seq(c, vs, ci)
 		c.Add("lis_inputs", 1)
 		c.Add("lnds_inputs", 1)
